@@ -176,6 +176,11 @@ def volume_record(e):
 
 def job(spec):
     """Build one bound, drive it through splits and several rounds, return the records."""
+    with common.cpu_limit(400):
+        return _job(spec)
+
+
+def _job(spec):
     recs = []
     kind, n_dim, n, seed, cls_name, unit, n_split = spec['kind'], spec['n_dim'], spec['n'], spec['seed'], \
         spec['cls'], spec.get('unit', True), spec.get('n_split', 2)
